@@ -502,7 +502,7 @@ func init() {
 		E := v.env.heapGet(st, byteMap, srtIII)
 		nd := v.env.ctx.freshConst("bufdata.new", srtII)
 		ln := sliceLen(sl.T)
-		st.assume("(forall ((k! Int)) (! (=> (and (<= 0 k!) (< k! " + ln + ")) (= (select " + nd + " k!) (select (select " + E + " " + sliceBase(sl.T) + ") (+ " + sliceOff(sl.T) + " k!)))) :pattern ((select " + nd + " k!))))")
+		st.assume("(forall ((k! Int)) (! (=> (and (<= 0 k!) (< k! " + ln + ")) (= (select " + nd + " k!) (select " + v.env.ctx.resolveSel(E, sliceBase(sl.T)) + " (+ " + sliceOff(sl.T) + " k!)))) :pattern ((select " + nd + " k!))))")
 		v.bufSetD(st, r, nd)
 		v.bufSetR(st, r, "0")
 		v.bufSetW(st, r, ln)
@@ -682,5 +682,118 @@ func init() {
 			return true
 		}
 		return oldReadMods(v, c, maps)
+	}
+}
+
+// Byte-level model of sequential readers (bufio.Reader over the log file): per reader object r
+//
+//	rdata(r, i)   the i-th byte of the stream
+//	rpos(r)       bytes consumed so far
+//	rend(r)       total length of the stream (rend - rpos bytes remain)
+//
+// bufio.NewReader(u) is a fresh reader over what u has left. io.ReadFull(r, p) fills p completely
+// when len(p) bytes remain, returns (0, io.EOF) at the end, (remaining, io.ErrUnexpectedEOF) when
+// fewer remain, or fails with an arbitrary I/O error. binary.LittleEndian.Uint32 / PutUint32 are
+// the little-endian value of / store into the first four bytes of a slice.
+const (
+	gRData = "G!rdata"
+	gRPos  = "G!rpos"
+	gREnd  = "G!rend"
+)
+
+func init() {
+	byteMap := elemMapNameT(types.Typ[types.Uint8])
+	get := func(v *Verifier, st *State, ref string) (d, pos, end string) {
+		v.env.noteMapType(gRPos, types.Typ[types.Int], "field")
+		v.env.noteMapType(gREnd, types.Typ[types.Int], "field")
+		d = v.env.ctx.resolveSel(v.env.heapGet(st, gRData, srtIII), ref)
+		pos = v.env.ctx.resolveSel(v.env.heapGet(st, gRPos, srtII), ref)
+		end = v.env.ctx.resolveSel(v.env.heapGet(st, gREnd, srtII), ref)
+		st.assume(and("(<= 0 "+pos+")", "(<= "+pos+" "+end+")"))
+		return
+	}
+	nativeStubs["bufio.NewReader"] = func(v *Verifier, st *State, in ssa.Instruction, c *ssa.CallCommon, args []Value, retT types.Type) Value {
+		u := refOf(args[0])
+		ud, upos, uend := get(v, st, u)
+		r := v.env.allocRef(st, "reader")
+		nd := v.env.ctx.freshConst("rdata.new", srtII)
+		st.assume("(forall ((k! Int)) (! (= (select " + nd + " k!) (select " + ud + " (+ " + upos + " k!))) :pattern ((select " + nd + " k!))))")
+		v.fileSet(st, gRData, srtIII, r, nd)
+		v.fileSet(st, gRPos, srtII, r, "0")
+		v.fileSet(st, gREnd, srtII, r, v.named(st, "rend", sub(uend, upos)))
+		return Value{T: r, Sort: "Int", GoT: retT}
+	}
+	nativeMods["bufio.NewReader"] = func(v *Verifier, c *ssa.CallCommon, maps map[string]string) bool {
+		maps[gRData] = srtIII
+		maps[gRPos] = srtII
+		maps[gREnd] = srtII
+		return false
+	}
+	nativeStubs["io.ReadFull"] = func(v *Verifier, st *State, in ssa.Instruction, c *ssa.CallCommon, args []Value, retT types.Type) Value {
+		ref := v.bufRefArg(st, c, args, 0)
+		d, pos, end := get(v, st, ref)
+		// the older ghost count of remaining bytes stays in step (contracts may still mention it)
+		remMap := v.env.heapGet(st, "G!ioRemaining", srtII)
+		p := args[1]
+		want := sliceLen(p.T)
+		rem := v.named(st, "io.rem", sub(end, pos))
+		ioPkg := v.prog.typPkgs["io"]
+		eof := v.env.globalValue(st, "io", ioPkg.Scope().Lookup("EOF").(*types.Var))
+		ueof := v.env.globalValue(st, "io", ioPkg.Scope().Lookup("ErrUnexpectedEOF").(*types.Var))
+		other := v.env.freshErr(st)
+		fail := v.env.ctx.freshConst("io.fail", "Bool")
+		n := v.env.ctx.freshConst("io.n", "Int")
+		st.assume(ite(fail, and("(<= 0 "+n+")", "(<= "+n+" "+want+")"), eq(n, ite("(< "+rem+" "+want+")", rem, want))))
+		errT := ite(fail, other.T, ite(eq(want, "0"), "VNil", ite(eq(rem, "0"), eof.T, ite("(< "+rem+" "+want+")", ueof.T, "VNil"))))
+		npos := v.env.ctx.freshConst("rpos", "Int")
+		st.assume(ite(fail, and("(>= "+npos+" "+pos+")", "(<= "+npos+" "+end+")"), eq(npos, add(pos, n))))
+		v.fileSet(st, gRPos, srtII, ref, npos)
+		v.env.heapSet(st, "G!ioRemaining", srtII, sto(remMap, ref, v.named(st, "io.left", sub(end, npos))))
+		v.env.noteMapType(byteMap, types.Typ[types.Uint8], "elem")
+		E := v.env.heapGet(st, byteMap, srtIII)
+		na := v.env.ctx.freshConst("readbytes", srtII)
+		unk := v.env.ctx.freshConst("readbytes.unk", srtII)
+		so := sliceOff(p.T)
+		src := sel2(d, "(+ "+pos+" (- k! "+so+"))")
+		old := sel2(sel2(E, sliceBase(p.T)), "k!")
+		st.assume("(forall ((k! Int)) (! (= (select " + na + " k!) (ite (and (<= " + so + " k!) (< k! (+ " + so + " " + want + "))) (ite " + fail + " (select " + unk + " k!) (ite (< k! (+ " + so + " " + n + ")) " + src + " " + old + ")) " + old + ")) :pattern ((select " + na + " k!))))")
+		st.assume("(forall ((k! Int)) (! (and (<= 0 (select " + unk + " k!)) (<= (select " + unk + " k!) 255)) :pattern ((select " + unk + " k!))))")
+		v.env.heapSet(st, byteMap, srtIII, sto(E, sliceBase(p.T), na))
+		tup := retT.(*types.Tuple)
+		return Value{Tuple: []Value{{T: n, Sort: "Int", GoT: tup.At(0).Type()}, {T: errT, Sort: "Val", GoT: tup.At(1).Type()}}, GoT: retT}
+	}
+	nativeMods["io.ReadFull"] = func(v *Verifier, c *ssa.CallCommon, maps map[string]string) bool {
+		maps["G!ioRemaining"] = srtII
+		maps[gRPos] = srtII
+		maps[byteMap] = srtIII
+		return false
+	}
+	nativeStubs["binary.(littleEndian).Uint32"] = func(v *Verifier, st *State, in ssa.Instruction, c *ssa.CallCommon, args []Value, retT types.Type) Value {
+		b := args[len(args)-1]
+		v.checkSite(st, in, "index", "(>= "+sliceLen(b.T)+" 4)", "Uint32 on a slice shorter than 4 bytes")
+		v.env.noteMapType(byteMap, types.Typ[types.Uint8], "elem")
+		E := v.env.heapGet(st, byteMap, srtIII)
+		arrT := v.env.ctx.resolveSel(E, sliceBase(b.T))
+		byteAt := func(i int) string { return sel2(arrT, add(sliceOff(b.T), intLit(int64(i)))) }
+		for i := 0; i < 4; i++ {
+			st.assume("(and (<= 0 " + byteAt(i) + ") (<= " + byteAt(i) + " 255))")
+		}
+		r := v.env.ctx.freshConst("le.u32", "Int")
+		st.assume(eq(r, leSum(4, byteAt)))
+		return Value{T: r, Sort: "Int", GoT: retT}
+	}
+	nativeStubs["binary.(littleEndian).PutUint32"] = func(v *Verifier, st *State, in ssa.Instruction, c *ssa.CallCommon, args []Value, retT types.Type) Value {
+		dst := args[len(args)-2]
+		val := args[len(args)-1]
+		v.checkSite(st, in, "index", "(>= "+sliceLen(dst.T)+" 4)", "PutUint32 on a slice shorter than 4 bytes")
+		bs := v.leBytes(st, val, 4, false, false)
+		v.env.noteMapType(byteMap, types.Typ[types.Uint8], "elem")
+		E := v.env.heapGet(st, byteMap, srtIII)
+		inner := sel2(E, sliceBase(dst.T))
+		for i, x := range bs {
+			inner = sto(inner, add(sliceOff(dst.T), intLit(int64(i))), x)
+		}
+		v.env.heapSet(st, byteMap, srtIII, sto(E, sliceBase(dst.T), inner))
+		return Value{}
 	}
 }
